@@ -8,7 +8,7 @@ committed now report). Seeds whose own property check cannot reach them are list
 (SIBLING below)."""
 import json, os, shutil, subprocess, sys, tempfile
 
-SIBLING = {"C03-r3-seed2": ["C20"], "C05-r3-seed1": ["C19"], "C05-r3-seed2": ["C10"]}
+SIBLING = {"C03-r2-seed2": ["C06"], "C03-r3-seed2": ["C20"], "C05-r3-seed1": ["C19"], "C05-r3-seed2": ["C10"]}
 ENV = dict(os.environ, GOFLAGS="-mod=mod", GOPROXY="off", GOSUMDB="off", GOTOOLCHAIN="local")
 
 
